@@ -996,6 +996,17 @@ pub fn factory_micro(which: &str) -> Vec<FScn> {
             v.push(s);
         }
     }
+    if all || which == "shrinkupdate" {
+        // a shrink leaves the busy out-of-pool worker retiring; new discard settings arrive meanwhile; the pool grows back
+        // before that worker finished: the revived slot obeys the new per-worker limit like every other one
+        for r in [Routing::KeyP, Routing::Custom] {
+            let mut s = base_scn(r, 2);
+            // key 1 hashes to worker 1 of 2 (key-persistent and custom tables)
+            s.clients = vec![vec![job(1, 1, Beh::Ok, 60, false, None), COp::Sleep(3), COp::Adjust(1), COp::Update { limit: Some((1, true)), wc: None }, COp::Adjust(2), COp::Sleep(2),
+                                  job(2, 1, Beh::Ok, 0, false, None), job(3, 1, Beh::Ok, 0, false, None), job(4, 1, Beh::Ok, 0, false, None), COp::Sleep(80), job(5, 1, Beh::Ok, 0, false, None)]];
+            v.push(s);
+        }
+    }
     if all || which == "shrinkdrain" {
         // a pool shrink leaves the busy out-of-pool worker draining with accepted jobs in its own queue, then
         // DrainRequests arrives while every in-pool worker is idle: the factory must wait for that worker
